@@ -179,6 +179,7 @@ struct Plan
     int depth = 3;
     bool sweep = true;       // the depth-2 ARGS sweep
     bool thorough = false;
+    bool light = false;      // large complete families in the thorough tier: depth 3 and the quick-tier sweep parameters
 };
 static Plan PLAN;
 
@@ -241,10 +242,10 @@ static void explore_subject(Subject S, int nev, int ncv, int rot, Local& L, cons
     ops.push_back(op_init0());
     ops.push_back(op_initv(1));
     ops.push_back(op_initv(2));
-    ops.push_back(op_compute(r0, 1000, 1e-10L, SYM_SORT[rot % 4]));
-    ops.push_back(op_compute(r1, 1, 1e-6L, SYM_SORT[(rot + 1) % 4]));
-    ops.push_back(op_compute(r0, 0, 1e-10L, SYM_SORT[(rot + 2) % 4]));
-    if (PLAN.prop == "C06") ops.push_back(op_share(1, r0, 1000, 1e-10L, SYM_SORT[rot % 4]));
+    ops.push_back(op_compute(r0, 1000, std::max<LD>(1e-10L, 50 * S.eps), SYM_SORT[rot % 4]));
+    ops.push_back(op_compute(r1, 1, std::max<LD>(1e-6L, 1000 * S.eps), SYM_SORT[(rot + 1) % 4]));
+    ops.push_back(op_compute(r0, 0, std::max<LD>(1e-10L, 50 * S.eps), SYM_SORT[(rot + 2) % 4]));
+    if (PLAN.prop == "C06") ops.push_back(op_share(1, r0, 1000, std::max<LD>(1e-10L, 50 * S.eps), SYM_SORT[rot % 4]));
     try
     {
         PropOracle<K> po(PLAN.prop, S, ops, L, replay);
@@ -260,7 +261,7 @@ static void explore_subject(Subject S, int nev, int ncv, int rot, Local& L, cons
             static const long MAXIT_Q[4] = {0, 1, 3, 1000};
             const LD TOL_T[5] = {4 * S.eps, 1e-14L, 1e-10L, 1e-6L, 1e-2L};
             const LD TOL_Q[3] = {4 * S.eps, 1e-10L, 1e-2L};
-            const bool full = PLAN.thorough;
+            const bool full = PLAN.thorough && !PLAN.light;
             const int nm = full ? 6 : 4, nt = full ? 5 : 3;
             std::vector<OpDesc> sops;
             const size_t nstart = full ? S.starts.size() : std::min<size_t>(S.starts.size(), 6);
@@ -450,10 +451,15 @@ int main(int argc, char** argv)
     }
     if (!q)
     {
+        const int depth_saved = PLAN.depth;
+        PLAN.light = true;
+        PLAN.depth = std::min(PLAN.depth, 3);
         R.run("sint4", sint_count(4, 3), [&](uint64_t idx, Local& L) {
         if (asan_skip(idx)) { L.count("skipped_asan_sampling"); return; }
             run_real_matrix(sint_get(4, D3(), idx), "sint4:" + num(idx), idx, K_DENSE | (idx % 5 == 0 ? K_SHIFT : 0), L, "sint4#" + num(idx));
         });
+        PLAN.light = false;
+        PLAN.depth = depth_saved;
         const int n = 8;
         const uint64_t nspec = uint64_t(lcat_count()) * qcat_count(n);
         R.run("spec8", nspec, [&](uint64_t idx, Local& L) {
